@@ -13,6 +13,7 @@ from pyvc import extract, runner
 from pyvc.contract import REGISTRY, TRUSTED
 
 VERIF = os.path.dirname(os.path.dirname(os.path.abspath(__file__)))
+OUT = os.environ.get("PYVC_OUT", VERIF)  # evidence/ and replays/ go here (seed runs redirect it)
 EXIT_OK, EXIT_VIOLATION, EXIT_UNDECIDED, EXIT_ERROR = 0, 1, 2, 3
 
 PYTHON_ASSUMPTIONS = [
@@ -54,6 +55,7 @@ def run_replay_batch(spec_name, inputs):
 
 def check_property(pid, tier="quick", seed=0):
     t0 = time.time()
+    extract.ensure_path()  # candidate generators use the working tree's tables
     mod = importlib.import_module(f"props.{pid}")
     units = mod.units(tier)
     results = runner.run_units(units, tier)
@@ -70,7 +72,7 @@ def check_property(pid, tier="quick", seed=0):
     violations = 0
     known_hits = []
     known = [k for k in load_known() if k.get("property") == pid]
-    replay_dir = os.path.join(VERIF, "replays", pid)
+    replay_dir = os.path.join(OUT, "replays", pid)
     status = EXIT_OK
 
     # ---- refuted obligations: replay on the real code
@@ -96,7 +98,7 @@ def check_property(pid, tier="quick", seed=0):
                 "input": rep.get("input"), "expected": rep.get("expected"), "observed": rep.get("observed"),
                 "key": key, "replay_error": rep.get("error"), "repo": extract.REPO,
                 "source_sha": extract.source_shas(),
-                "rerun": f"python3-vt -m pyvc replay {os.path.relpath(path, VERIF)}",
+                "rerun": f"python3-vt -m pyvc replay {os.path.relpath(path, OUT)}",
             }, f, indent=1, default=str)
         match = [k for k in known if k.get("status") == "open" and k.get("key") == key]
         if match and reproduced:
@@ -107,17 +109,46 @@ def check_property(pid, tier="quick", seed=0):
             continue
         violations += 1
         status = EXIT_VIOLATION
-        rel = os.path.relpath(path, VERIF)
+        rel = os.path.relpath(path, OUT)
         if reproduced:
             lines.append(f"VIOLATION property={pid} replay={rel}")
         else:
             lines.append(f"VIOLATION property={pid} replay={rel} no-failing-input-found")
 
+    # ---- functions that left the modelled subset (or lost their loop invariant): bounded search on
+    # the same contract stands in; a failing input is a violation, otherwise the property is undecided
+    incomplete = [r for r in results if r.get("incomplete")]
+    for r in unsupported + incomplete:
+        if violations or not hasattr(mod, "replay"):
+            break
+        pseudo = {"name": r["qualname"] or r["unit"], "unit": r["unit"], "model": {}, "site": None, "solver": None,
+                  "seconds": 0, "note": "function outside the modelled subset: " + str(r["unsupported"] or r.get("incomplete"))}
+        try:
+            rep = mod.replay(pseudo, seed) or {}
+        except Exception as e:  # noqa
+            rep = {"error": repr(e)}
+        if rep.get("reproduced"):
+            os.makedirs(replay_dir, exist_ok=True)
+            path = os.path.join(replay_dir, f"{safe(pseudo['name'])}-bounded-search.json")
+            with open(path, "w") as f:
+                json.dump({"property": pid, "obligation": pseudo["name"] + " (contract checked by bounded search; the function is outside "
+                           "the modelled subset so no VC was generated)", "note": pseudo["note"], "reproduced_on_real_code": True,
+                           "replay_spec": rep.get("spec"), "input": rep.get("input"), "expected": rep.get("expected"),
+                           "observed": rep.get("observed"), "key": rep.get("key"), "repo": extract.REPO}, f, indent=1, default=str)
+            key = rep.get("key")
+            match = [k for k in known if k.get("status") == "open" and k.get("key") == key]
+            if match:
+                lines.append(f"KNOWN-FINDING: property={pid} {match[0].get('what', key)}")
+                continue
+            violations += 1
+            status = EXIT_VIOLATION
+            lines.append(f"VIOLATION property={pid} replay={os.path.relpath(path, OUT)}")
+
     # ---- undecided / engine problems (never reported as violations)
     if status == EXIT_OK:
         if errors or nocanary or empty or not obs:
             status = EXIT_ERROR
-        elif unknown or unsupported:
+        elif unknown or unsupported or incomplete:
             status = EXIT_UNDECIDED
     for r in errors:
         lines.append(f"CHECKER-ERROR property={pid} unit={r['unit']} (traceback in evidence)")
@@ -129,6 +160,8 @@ def check_property(pid, tier="quick", seed=0):
         lines.append(f"UNDECIDED property={pid} unit={r['unit']} outside the modelled subset: {r['unsupported']}")
     for o in unknown:
         lines.append(f"UNDECIDED property={pid} obligation={o['name']} ({o['reason']})")
+    for r in incomplete:
+        lines.append(f"UNDECIDED property={pid} unit={r['unit']} proof incomplete: {'; '.join(r['incomplete'][:2])}")
 
     # ---- bounded stand-ins (labelled, never counted as proved)
     bounded = []
@@ -215,6 +248,6 @@ def write_evidence(pid, tier, seed, mod, units, results, obs, proved, refuted, u
         "assumptions": PYTHON_ASSUMPTIONS + list(getattr(mod, "ASSUMPTIONS", [])),
         "wall_s": round(wall, 2), "violations": violations,
     }
-    os.makedirs(os.path.join(VERIF, "evidence"), exist_ok=True)
-    with open(os.path.join(VERIF, "evidence", f"{pid}.json"), "w") as f:
+    os.makedirs(os.path.join(OUT, "evidence"), exist_ok=True)
+    with open(os.path.join(OUT, "evidence", f"{pid}.json"), "w") as f:
         json.dump(ev, f, indent=1, default=str)
